@@ -185,6 +185,24 @@ func c11Exec(c c11Case) (keys []string, detail, class string) {
 			return []string{"C11/RetrieveAssertionInfo/summary-differs-from-twin"}, detail, "TWIN-DIFFERS"
 		}
 	}
+	// key roll-over through the field on the instance that has already decrypted: the next
+	// message, encrypted to the new key, is decrypted with the new key
+	if (c.KeyCfg == "field" || c.KeyCfg == "field-custom") && c.EncMask == 0 {
+		sp := conf.Build()
+		validateResponse(sp, mk(true))
+		old := sp.SPKeyStore
+		sp.SPKeyStore = world.FieldKeyStore("KX", conf.PlainStores)
+		toKey = "KX"
+		resp2, r2 := validateResponse(sp, mk(true))
+		toKey = "KS"
+		sp.SPKeyStore = old // (in a live pass this is the long-lived instance: rolled back)
+		if !r2.Accepted() {
+			return []string{"C11/ValidateEncodedResponse/after-field-key-roll-over/encrypted-rejected-but-twin-accepted"}, detail + fmt.Sprintf(" | after SPKeyStore was replaced on the used instance: accepted=%v err=%q panic=%q", r2.Accepted(), r2.Err.Text, r2.Panic), "TWIN-DIFFERS"
+		}
+		if oracle.FromResponse(resp2).Key() != b.Key() {
+			return []string{"C11/ValidateEncodedResponse/after-field-key-roll-over/data-differs-from-twin"}, detail, "TWIN-DIFFERS"
+		}
+	}
 	return nil, detail, "twin-equal/" + c.KeyCfg
 }
 
@@ -269,7 +287,7 @@ func c11Cases(thorough bool) (cases []c11Case, n1 int) {
 }
 
 func c11Run(r *mc.Run) {
-	r.Rule = "DecryptBytes level: full product data algorithm(5) x key transport/digest(9: OAEP-MGF1P and OAEP 1.1 with digest absent/sha1/sha256/sha512, RSA 1.5) x EncryptedKey placement(2) x recipient certificate(2) x plaintext length 0..48 x tail(4: non-zero, 1, 2, 16 zero bytes) x CBC pad fill(3: zero, PKCS#7, 0xff), oracle = an independent XML-Enc encryptor (idp/enc.go): decrypted bytes = plaintext exactly; ValidateEncodedResponse level: 45 combinations x 16 residues mod 16 x placement(2) x signing(2) x 5 key configurations (field, setter, both same, both different, field holding a key store of a custom type), plus Responses with two assertions of which the first, the second or both are encrypted (2 algorithms x 2 key configurations x 2 signing placements), oracle = plaintext twin (same outcome, same data in the same order, same summary). non-trivial = decryption reached the symmetric step; distinct = distinct case"
+	r.Rule = "DecryptBytes level: full product data algorithm(5) x key transport/digest(9: OAEP-MGF1P and OAEP 1.1 with digest absent/sha1/sha256/sha512, RSA 1.5) x EncryptedKey placement(2) x recipient certificate(2) x plaintext length 0..48 x tail(4: non-zero, 1, 2, 16 zero bytes) x CBC pad fill(3: zero, PKCS#7, 0xff), oracle = an independent XML-Enc encryptor (idp/enc.go): decrypted bytes = plaintext exactly; ValidateEncodedResponse level: 45 combinations x 16 residues mod 16 x placement(2) x signing(2) x 5 key configurations (field, setter, both same, both different, field holding a key store of a custom type), plus Responses with two assertions of which the first, the second or both are encrypted (2 algorithms x 2 key configurations x 2 signing placements), oracle = plaintext twin (same outcome, same data in the same order, same summary); field-configured keys are also rolled over on the used instance. non-trivial = decryption reached the symmetric step; distinct = distinct case"
 	r.Assume("for non-default OAEP digests MGF1 uses the same hash (the reading under which the library's exported identifiers interoperate with itself)")
 	cases, n1 := c11Cases(r.Thorough())
 	r.Set("decryptbytes_cases", n1)
